@@ -114,6 +114,9 @@ class MinSetCover():
                 "solve_time": time.perf_counter() - start_time,
                 "status": self.solver.get_model_status(),
             }
+            # The model is not (or, after a re-solve, no longer) proven optimal
+            self._is_solved = False
+            self._solution = None
             return False
 
     def is_solved(self):
